@@ -69,19 +69,32 @@ pub fn pretty_print(
 
 /// Extract comments at the start of the file (before any non-trivia token)
 fn extract_file_leading_comments(source: &str, tokens: &[Token]) -> String {
+    // Only the trivia that the pre-parser attaches to no token (everything up to the last line
+    // break before the first token) is rescued here; what follows that line break is leading
+    // trivia of the first token and is printed with it.
     let mut output = String::new();
+    let mut pending = String::new();
+    let mut saw_token = false;
     for token in tokens {
         if token.is_trivia() {
             if matches!(
                 token.kind,
                 TokenKind::SingleLineComment | TokenKind::MultiLineComment
             ) {
-                output.push_str(token.text(source));
-                output.push('\n');
+                pending.push_str(token.text(source));
+                pending.push('\n');
+            } else if token.kind == TokenKind::LineBreak {
+                output.push_str(&pending);
+                pending.clear();
             }
             continue;
         }
+        saw_token = token.kind != TokenKind::Eof;
         break;
+    }
+    if !saw_token {
+        // no syntax token at all: nothing else prints these comments
+        output.push_str(&pending);
     }
     output
 }
